@@ -140,3 +140,14 @@ package prelude
 //@   trusted
 //@   modifies nothing
 //@   ensures result == gf(b, content, string)
+
+//@ package unicode/utf8
+
+// DecodeRuneInString: empty input -> (RuneError, 0); otherwise 1..4 bytes, never more than the
+// input holds; an ASCII result is always one byte wide.
+//@ func DecodeRuneInString
+//@   trusted
+//@   pure
+//@   ensures len(s) == 0 ==> result1 == 0
+//@   ensures len(s) > 0 ==> 1 <= result1 && result1 <= 4 && result1 <= len(s)
+//@   ensures 0 <= result0 && (result0 < 128 && result1 > 0 ==> result1 == 1)
